@@ -97,7 +97,7 @@ def confirm(run, v):
     if v.get('long_answers'):
         base['script'] = {str(i): ['ok', 'str:' + b'0123456789'.hex()] for i in range(8)}
     detail = {}
-    ok_all = True
+    ok_all = False      # reproduced in the dev or the release profile (both recorded)
     for rel in (False, True):
         a = run.native([dict(base, chunks=v.get('chunks') or [], tail=1)], release=rel)[0]
         b = run.native([dict(base, chunks=[], tail=1)], release=rel)[0]
@@ -125,5 +125,5 @@ def confirm(run, v):
         else:
             ok = False
         detail['release' if rel else 'dev'] = {'schedule_or_reference': a, 'byte_at_a_time': b, 'reproduced': ok}
-        ok_all = ok_all and ok
+        ok_all = ok_all or ok
     return ok_all, detail
